@@ -102,7 +102,7 @@ def real_apply(ns, op):
         return ("err", type(x).__name__ + ":" + str(x)[:60])
 
 
-def run_trial(opset, initial, preempt=None, choices=None):
+def run_trial(opset, initial, preempt=None, choices=None, storage=None):
     """-> (sched, records, final_state) ; records: list of (thread, op, call_step, return_step, result)"""
     from Pyro5 import nameserver
     sch = S.Sched(FILES, preempt=preempt, choices=choices)
@@ -114,13 +114,35 @@ def run_trial(opset, initial, preempt=None, choices=None):
     shim.Lock = lambda: S.SLock(sch)
     nameserver.threading = shim
     try:
-        return _run_trial(nameserver, sch, opset, initial)
+        return _run_trial(nameserver, sch, opset, initial, storage)
     finally:
         nameserver.threading = real_threading
 
 
-def _run_trial(nameserver, sch, opset, initial):
-    storage = nameserver.MemoryStorage()
+def _run_trial(nameserver, sch, opset, initial, storage_kind=None):
+    tmpdir = None
+    if storage_kind == "sql":
+        # the sqlite back-end: every storage call opens its own connection; writers are serialised by the name server's lock,
+        # lookups take no lock (so a lookup may run between two statements of a writer, and a writer between two of a lookup)
+        import os
+        import tempfile
+        tmpdir = tempfile.mkdtemp(prefix="c15_", dir="/dev/shm" if os.path.isdir("/dev/shm") else "/var/tmp")
+        storage = nameserver.SqlStorage(os.path.join(tmpdir, "ns.sqlite"))
+    else:
+        storage = nameserver.MemoryStorage()
+    try:
+        return _run_trial2(nameserver, sch, opset, initial, storage)
+    finally:
+        if tmpdir:
+            import shutil
+            try:
+                storage.close()
+            except Exception:
+                pass
+            shutil.rmtree(tmpdir, ignore_errors=True)
+
+
+def _run_trial2(nameserver, sch, opset, initial, storage):
     for name in initial:
         storage[name] = (URI1, None)            # pre-populated through the storage: the server object itself is untouched before the threads start
     ns = nameserver.NameServer(storage)
@@ -138,7 +160,7 @@ def _run_trial(nameserver, sch, opset, initial):
     ok = sch.run()
     final = None
     if ok:
-        final = {n: (u, frozenset(m or ())) for n, (u, m) in ns.storage.items()}
+        final = {n: (u, frozenset(m or ())) for n, (u, m) in ns.storage.everything(return_metadata=True).items()}
     return sch, records, final
 
 
@@ -218,7 +240,7 @@ def check_trial(opset, initial, sch, records, final):
 def run_case(case):
     opset = [[tuple(o) for o in ops] for ops in case["ops"]]
     sch, records, final = run_trial(opset, case["initial"], preempt={int(k): v for k, v in case.get("preempt", {}).items()} or None,
-                                    choices=case.get("choices"))
+                                    choices=case.get("choices"), storage=case.get("storage"))
     return check_trial(opset, case["initial"], sch, records, final)
 
 
@@ -249,6 +271,13 @@ CATALOGUE = [
     (["x"], [[("remove", "x"), ("register_meta", "x", URI2, True, "m")], [("lookup", "x")]]),
     ([], [[("register_meta", "x", URI1, True, "m")], [("register_meta", "x", URI2, True, "n")], [("lookup", "x")]]),
     (["x", "xy"], [[("remove_prefix", "x")], [("list", "x")], [("remove_prefix", "x")]]),
+    # (the reader first: one preemption inside the reader then lets the writer run to completion in its middle)
+    (["x"], [[("lookup", "x")], [("register_meta", "x", URI2, False, "m")]]),
+    (["x"], [[("lookup", "x")], [("set_metadata", "x", "m")]]),
+    (["x"], [[("lookup", "x")], [("remove", "x")]]),
+    (["x"], [[("lookup", "x")], [("remove", "x"), ("register_meta", "x", URI2, True, "n")]]),
+    (["x", "xy"], [[("list", "x")], [("remove_prefix", "x")]]),
+    (["x"], [[("list", "")], [("register_meta", "x", URI2, False, "m")]]),
 ]
 
 names = st.sampled_from(["x", "xy", "y"])
@@ -275,7 +304,10 @@ def random_case(draw):
 def SHARDS(tier):
     k = 1 if tier == "quick" else 2
     sh = [{"part": "enum", "cat": i, "preemptions": k} for i in range(len(CATALOGUE))]
+    sh += [{"part": "enum", "cat": i, "preemptions": 2 if sum(len(ops) for ops in opset) <= 2 else 1, "storage": "sql"} for i, (_init, opset) in enumerate(CATALOGUE)
+           if any(o[0] == "lookup" for ops in opset for o in ops)]
     sh += [{"part": "random"} for _ in range(4 if tier == "quick" else 8)]
+    sh += [{"part": "random", "storage": "sql"} for _ in range(1 if tier == "quick" else 3)]
     return sh
 
 
@@ -286,19 +318,24 @@ def run(ctx):
         opset_l = [[list(o) for o in ops] for ops in opset]
 
         def run_with(preempt):
-            sch, records, final = run_trial(opset, initial, preempt=preempt or None)
+            sch, records, final = run_trial(opset, initial, preempt=preempt or None, storage=sh.get("storage"))
             sch._records, sch._final = records, final
             return sch
         n = 0
         for preempt, sch in S.enumerate_schedules(run_with, sh["preemptions"]):
             case = {"ops": opset_l, "initial": list(initial), "preempt": {str(k): v for k, v in preempt.items()}}
+            if sh.get("storage"):
+                case["storage"] = sh["storage"]
             viols = check_trial(opset, initial, sch, sch._records, sch._final)
-            ctx.observe(case, viols, nontrivial=sch.preempted_in_files > 0, labels=["enum", "preemptions:%d" % len(preempt)])
+            ctx.observe(case, viols, nontrivial=sch.preempted_in_files > 0, labels=["enum", "preemptions:%d" % len(preempt)] + (["storage:sqlite"] if sh.get("storage") else []))
             n += 1
             if ctx.violations and n > 50:
                 break
         ctx.exhaustive = not ctx.violations
         ctx.notes["schedules_enumerated"] = n
     else:
-        ctx.search(random_case(), run_case, ctx.n(800, 6000), nontrivial=lambda c: len(c["choices"]) > 0,
-                   labels=lambda c: ["random", "threads:%d" % len(c["ops"])], name="nsatomic", max_rounds=4)
+        strat = random_case()
+        if sh.get("storage"):
+            strat = strat.map(lambda c: dict(c, storage=sh["storage"]))
+        ctx.search(strat, run_case, ctx.n(800, 6000) if not sh.get("storage") else ctx.n(250, 2000), nontrivial=lambda c: len(c["choices"]) > 0,
+                   labels=lambda c: ["random", "threads:%d" % len(c["ops"])] + (["storage:sqlite"] if c.get("storage") else []), name="nsatomic", max_rounds=4)
